@@ -14,6 +14,15 @@ type World struct {
 	UtmMedium     string   `json:"utm_medium,omitempty"`
 	UseUtmContent bool     `json:"utm_content,omitempty"`
 	Lenses        []string `json:"lenses,omitempty"` // "ok" | "error" | "empty"
+	// Builtins: addresses the server itself adds to every path's targets
+	// (path.module, terraform.workspace): typed, scoped, without any range
+	Builtins []BuiltinSpec `json:"builtins,omitempty"`
+}
+
+type BuiltinSpec struct {
+	Addr  string `json:"addr"`
+	Scope string `json:"scope,omitempty"`
+	Type  string `json:"type,omitempty"`
 }
 
 type HookSpec struct {
@@ -242,6 +251,8 @@ type Item struct {
 	Block   *BlockItem `json:"block,omitempty"`
 	Comment string     `json:"comment,omitempty"` // "# ..." or "// ..." line
 	Blank   int        `json:"blank,omitempty"`   // blank lines
+	// Bare: a name being typed on a line of its own ("res"): no item yet
+	Bare string `json:"bare,omitempty"`
 	ID      int        `json:"id,omitempty"`      // assigned by Render (stable per file)
 }
 
